@@ -13,6 +13,11 @@ and (put_object) the checksum record. "Takes effect completely or not at all":
 
 States are the harness's classification: destination `old|absent|dir` (= previous state) / `new` / `other`;
 side files `old|absent|blocked` (= previous state) / `new` / `other`.
+
+A violation's class is `<what>:<where>`: *what* is broken (the rule above) and *where* the fault was — the fault
+kind, and for dropped futures the position, read from the harness's progress markers (`B0` body never polled, `B1`
+polled, `B2` exhausted, `P<n>` parts consumed) — so that a listed finding covers exactly its own fault position
+and the same symptom anywhere else is a new violation.
 -/
 namespace S3V.FsWriteSpec
 
@@ -22,6 +27,10 @@ structure Obs where
   tmps : Nat
   mdata : String
   info : String
+  /-- progress marker when the call ended / was dropped -/
+  phase : String
+  /-- number of `Pending` seen -/
+  pends : Nat
 
 structure Setup where
   op : String
@@ -30,28 +39,60 @@ structure Setup where
   mdata0 : String
   info0 : String
   hasMeta : Bool
-  /-- shape of the injected fault, only used to name the class -/
+  /-- the injected fault as written in the case line -/
   fault : String
+  keymode : String
+  /-- a body item is an error / a part was never uploaded -/
+  itemMissing : Bool
+  /-- complete_multipart_upload: a part other than the last is below the minimum size -/
+  partTooSmall : Bool
 
 /-- side files a successful call leaves -/
 def sidesAfterSuccess (s : Setup) : String × String :=
   (if s.hasMeta && s.op ≠ "upload_part" then "new" else s.mdata0,
    if s.op = "put_object" then "new" else s.info0)
 
+/-- the one drop position at which the temporary file exists but no `FileWriter` yet: the first suspension that can
+    leave a file at all — body never polled (put_object, upload_part), resp. the suspension of `File::create` in
+    complete_multipart_upload (after 2 suspensions for the upload record, 2 more if the upload carries metadata) -/
+def atCreate (s : Setup) (o : Obs) : Bool :=
+  if s.op = "complete_multipart_upload" then o.phase = "P0" && o.pends = (if s.hasMeta then 5 else 3)
+  else o.phase = "B0"
+
+/-- where the fault was; `fine` distinguishes the drop positions before the rename -/
+def whereTag (s : Setup) (o : Obs) (fine : Bool) : String :=
+  if s.fault.startsWith "drop" then
+    if o.dest = "new" then "drop-after-rename"
+    else if !fine then "drop-before-rename"
+    else if atCreate s o then "drop-at-create"
+    else if o.phase = "B0" then "drop-before-create"
+    else if o.phase = "B1" then "drop-in-body"
+    else if s.op = "complete_multipart_upload" then s!"drop-after-{o.phase}"
+    else "drop-after-body"
+  else if s.fault.startsWith "cksum-bad" then "checksum"
+  else if s.fault.startsWith "cksum-good" then "good-checksum"
+  else if s.fault = "metafail" || s.fault = "infofail" then "sidefile-write-fails"
+  else if s.fault = "destdir" then "dest-is-dir"
+  else if s.keymode = "parentfile" then "parent-is-file"
+  else if s.itemMissing then (if s.op = "complete_multipart_upload" then "part-missing" else "body-error")
+  else if s.partTooSmall then "part-too-small"
+  else "no-fault"
+
 /-- `none` = the observation satisfies the property; `some (class, detail)` otherwise -/
 def judge (s : Setup) (o : Obs) : Option (String × String) :=
-  if o.tmps ≠ 0 then some ("tmp-leftover", s!"{o.tmps} temporary file(s) left")
-  else if o.dest ≠ s.dest0 ∧ o.dest ≠ "new" then some ("torn-content", s!"destination is {o.dest}")
+  if o.tmps ≠ 0 then some ("tmp-leftover:" ++ whereTag s o true, s!"{o.tmps} temporary file(s) left")
+  else if o.dest ≠ s.dest0 ∧ o.dest ≠ "new" then
+    some ("torn-content:" ++ whereTag s o true, s!"destination is {o.dest}")
   else if o.code ≠ "OK" ∧ o.code ≠ "DROPPED" ∧ o.dest = "new" then
-    some (if o.code = "BadDigest" then "baddigest-but-replaced" else "error-after-rename",
-      s!"answered {o.code} but the destination holds the new content")
-  else if o.code = "OK" ∧ o.dest ≠ "new" then some ("ok-but-not-stored", s!"answered OK, destination is {o.dest}")
+    some ("error-after-rename:" ++ whereTag s o false, s!"answered {o.code} but the destination holds the new content")
+  else if o.code = "OK" ∧ o.dest ≠ "new" then
+    some ("ok-but-not-stored:" ++ whereTag s o false, s!"answered OK, destination is {o.dest}")
   else if o.dest = "new" then
     if (o.mdata, o.info) = sidesAfterSuccess s then none
-    else some ("sidefiles-lag", s!"content new, metadata {o.mdata}, info {o.info}")
+    else some ("sidefiles-lag:" ++ whereTag s o false, s!"content new, metadata {o.mdata}, info {o.info}")
   else
     if (o.mdata, o.info) = (s.mdata0, s.info0) then none
-    else some (if s.op = "complete_multipart_upload" then "complete-metadata-early" else "sidefiles-ahead",
-      s!"content unchanged, metadata {o.mdata}, info {o.info}")
+    else some ((if s.op = "complete_multipart_upload" then "complete-metadata-early:" else "sidefiles-ahead:") ++
+        whereTag s o false, s!"content unchanged, metadata {o.mdata}, info {o.info}")
 
 end S3V.FsWriteSpec
